@@ -22,6 +22,8 @@ import (
 	"math/rand"
 	"net"
 	"net/http"
+	"net/http/httptrace"
+	"net/textproto"
 	"os"
 	"path/filepath"
 	"reflect"
@@ -45,7 +47,13 @@ import (
 )
 
 var methods = []string{"GET", "HEAD", "POST", "PUT", "DELETE", "PATCH", "OPTIONS"}
-var paths = []string{"/p0", "/p1", "/p2", "/a/b", "/a/b/c", "/x.y", "/UP", "/p0/q"}
+var paths = func() []string {
+	p := []string{"/p0", "/p1", "/p2", "/a/b", "/a/b/c", "/x.y", "/UP", "/p0/q"}
+	for i := 0; i < 64; i++ { // ids 8..71: one path per handler program of the response-writing family
+		p = append(p, "/w"+strconv.Itoa(i))
+	}
+	return p
+}()
 
 func methodID(m string) int {
 	for i, x := range methods {
@@ -221,6 +229,8 @@ func (o hop) coq() string {
 	switch o.Kind {
 	case "barrier":
 		return "OBarrier"
+	case "flush":
+		return "OFlush"
 	case "obs":
 		return "OObs"
 	case "read":
@@ -260,6 +270,11 @@ func runOps(ops []hop, w http.ResponseWriter, r *http.Request, rec *recorder) {
 		case "barrier":
 			if rec.bar != nil {
 				rec.bar.wait()
+			}
+		case "flush":
+			// what streaming handlers do: flush when the writer they were given can
+			if f, ok := w.(http.Flusher); ok {
+				f.Flush()
 			}
 		case "obs":
 			obs()
@@ -864,6 +879,7 @@ func (g *gen) runOnce(sc *scenario) (err error, retry bool) {
 		ob   []int
 		ev   [][]int
 		prot string
+		info [][]int // interim (1xx) responses the client received: code, then projected headers
 	}
 	var obs []obsT
 	doReq := func(rq request, rid int) (obsT, error) {
@@ -886,7 +902,18 @@ func (g *gen) runOnce(sc *scenario) (err error, retry bool) {
 		for i := 0; i+1 < len(rq.H); i += 2 {
 			hr.Header.Set("X-V-"+strconv.Itoa(rq.H[i]), strconv.Itoa(rq.H[i+1]))
 		}
-		hr.Header.Set("X-Rid", strconv.Itoa(rid))
+		if rid >= 0 {
+			hr.Header.Set("X-Rid", strconv.Itoa(rid))
+		}
+		var imu sync.Mutex
+		var info [][]int
+		hr = hr.WithContext(httptrace.WithClientTrace(hr.Context(), &httptrace.ClientTrace{
+			Got1xxResponse: func(code int, header textproto.MIMEHeader) error {
+				imu.Lock()
+				info = append(info, append([]int{code}, projHdr(http.Header(header))...))
+				imu.Unlock()
+				return nil
+			}}))
 		resp, e := client.Do(hr)
 		if e != nil {
 			return obsT{}, e
@@ -896,7 +923,9 @@ func (g *gen) runOnce(sc *scenario) (err error, retry bool) {
 		if e != nil {
 			return obsT{}, e
 		}
-		return obsT{resp.StatusCode, projHdr(resp.Header), bytesToInts(rb), nil, resp.Proto}, nil
+		imu.Lock()
+		defer imu.Unlock()
+		return obsT{resp.StatusCode, projHdr(resp.Header), bytesToInts(rb), nil, resp.Proto, info}, nil
 	}
 	if sc.Overlap {
 		rec.bar = newBarrier(len(sc.Reqs))
@@ -927,37 +956,13 @@ func (g *gen) runOnce(sc *scenario) (err error, retry bool) {
 		if sc.Overlap {
 			break
 		}
-		var url string
-		if rq.Listener == 0 {
-			url = fmt.Sprintf("http://127.0.0.1:%d%s", httpPort, paths[rq.P])
-		} else {
-			url = fmt.Sprintf("https://127.0.0.1:%d%s", httpsPort, paths[rq.P])
-		}
-		var body io.Reader
-		if rq.Unsized {
-			// hide the concrete reader type: net/http then cannot know the length and sends no Content-Length
-			body = struct{ io.Reader }{bytes.NewReader(intsToBytes(rq.B))}
-		} else if len(rq.B) > 0 {
-			body = bytes.NewReader(intsToBytes(rq.B))
-		}
-		hr, e := http.NewRequest(methods[rq.M], url, body)
-		if e != nil {
-			return e, false
-		}
-		for i := 0; i+1 < len(rq.H); i += 2 {
-			hr.Header.Set("X-V-"+strconv.Itoa(rq.H[i]), strconv.Itoa(rq.H[i+1]))
-		}
 		rec.take()
-		resp, e := client.Do(hr)
+		o, e := doReq(rq, -1)
 		if e != nil {
-			return fmt.Errorf("request %s %s: %v", methods[rq.M], url, e), true
+			return fmt.Errorf("request %s %s (listener %d): %v", methods[rq.M], paths[rq.P], rq.Listener, e), true
 		}
-		rb, e := io.ReadAll(resp.Body)
-		resp.Body.Close()
-		if e != nil {
-			return fmt.Errorf("reading response of %s %s: %v", methods[rq.M], url, e), true
-		}
-		obs = append(obs, obsT{resp.StatusCode, projHdr(resp.Header), bytesToInts(rb), rec.take(), resp.Proto})
+		o.ev = rec.take()
+		obs = append(obs, o)
 		g.requests++
 	}
 	// gRPC
@@ -1053,6 +1058,9 @@ func (g *gen) runOnce(sc *scenario) (err error, retry bool) {
 				rq.Listener, l.opsCoq(), cw.Z(rq.M), cw.Z(rq.P), cw.L(hs), zl(rq.B), cw.Z(o.st), cw.L(ohs), zl(o.ob), zll(o.ev))
 			seqKey = fmt.Sprintf("|%v", l.Seq)
 		}
+		if len(o.info) > 0 {
+			coq = fmt.Sprintf("CInfo %s (%s)", cw.ZLL(o.info), coq)
+		}
 		registered := false
 		for _, c := range l.Calls {
 			if c.P == rq.P && (c.M == rq.M || (c.M == 0 && rq.M == 1)) {
@@ -1088,6 +1096,9 @@ func (g *gen) runOnce(sc *scenario) (err error, retry bool) {
 		if sc.Overlap {
 			tags = append(tags, "overlapping-requests")
 		}
+		if len(o.info) > 0 {
+			tags = append(tags, "interim-1xx-responses")
+		}
 		if l.Seq != nil {
 			tags = append(tags, "config-sequence")
 			if l.hasStep("getroutes") {
@@ -1100,7 +1111,7 @@ func (g *gen) runOnce(sc *scenario) (err error, retry bool) {
 		desc := map[string]any{
 			"kind": "http-exchange", "listener": lname, "config": l,
 			"request":  map[string]any{"method": methods[rq.M], "path": paths[rq.P], "xv_headers": rq.H, "body": rq.B, "body_framing": framing, "overlapping_with": map[bool]int{true: len(sc.Reqs) - 1, false: 0}[sc.Overlap]},
-			"observed": map[string]any{"status": o.st, "xv_headers": o.oh, "body": o.ob, "events": o.ev, "proto": o.prot},
+			"observed": map[string]any{"status": o.st, "xv_headers": o.oh, "body": o.ob, "events": o.ev, "proto": o.prot, "interim_1xx_responses": o.info},
 			"https_builder_has_UsingMiddleWare": g.httpsMw, "tls_in_config": sc.TLSInCfg,
 			"event_legend": "0 enter i|1 exit i|2 obs method path hdrs|3 read bytes|4 w.Header()|5 logger request m p body|6 logger response m p status body|7 handler(index of AddRoute call)",
 		}
@@ -1150,7 +1161,10 @@ func (g *gen) randOps(maxLen int, handler bool) []hop {
 		case 4, 5:
 			ops = append(ops, hop{Kind: "set", K: 1 + g.rng.Intn(4), V: g.rng.Intn(50)})
 		case 6:
-			ops = append(ops, hop{Kind: "status", K: []int{200, 201, 202, 400, 404, 418, 500}[g.rng.Intn(7)]})
+			ops = append(ops, hop{Kind: "status", K: []int{200, 201, 202, 400, 404, 418, 500, 103, 102, 404, 103}[g.rng.Intn(11)]})
+			if handler && g.rng.Intn(4) == 0 {
+				ops = append(ops, hop{Kind: "flush"})
+			}
 		case 7:
 			ops = append(ops, hop{Kind: "write", Bs: g.randBytes(4)})
 		case 8:
@@ -1159,6 +1173,20 @@ func (g *gen) randOps(maxLen int, handler bool) []hop {
 			ops = append(ops, hop{Kind: "echohdr", K: 1 + g.rng.Intn(4)})
 		}
 	}
+	// net/http (HTTP/1.1 without full duplex) discards the unread request body once the response has been
+	// flushed: a handler that reads after flushing gets nothing, whatever the middleware.  Programs read first.
+	flushed := false
+	kept := ops[:0]
+	for _, o := range ops {
+		if o.Kind == "flush" {
+			flushed = true
+		}
+		if flushed && (o.Kind == "read" || o.Kind == "readall" || o.Kind == "echo") {
+			continue
+		}
+		kept = append(kept, o)
+	}
+	ops = kept
 	return ops
 }
 func (g *gen) randBytes(max int) []int {
@@ -1196,6 +1224,35 @@ func (g *gen) randListener() *listenerCfg {
 		l.HasMw = true
 		l.Mw = g.randMw(5)
 		l.Direct = len(l.Mw) == 1 && g.rng.Intn(2) == 0
+	}
+	// a HEAD response is complete for the client as soon as its header is flushed, i.e. possibly before the handler
+	// chain has returned; the recorder could then not attribute the remaining events to this request.  Routes a
+	// HEAD request can reach (GET and HEAD routes) therefore do not flush here; the respwrite family flushes on GET
+	// routes that only ever get GET requests.
+	for ci := range l.Calls {
+		if l.Calls[ci].M <= 1 {
+			kept := []hop{}
+			for _, o := range l.Calls[ci].Ops {
+				if o.Kind != "flush" {
+					kept = append(kept, o)
+				}
+			}
+			l.Calls[ci].Ops = kept
+		}
+	}
+	for _, m := range l.Mw {
+		if m.Kind == "scr" { // scripted middleware may read the body after the handler returned: no flushing handlers then
+			for ci := range l.Calls {
+				kept := []hop{}
+				for _, o := range l.Calls[ci].Ops {
+					if o.Kind != "flush" {
+						kept = append(kept, o)
+					}
+				}
+				l.Calls[ci].Ops = kept
+			}
+			break
+		}
 	}
 	if g.rng.Intn(2) == 0 {
 		g.randSeq(l)
@@ -1395,6 +1452,67 @@ func main() {
 					must(g.run(sc))
 				}
 			}
+		}
+	}
+
+	// --- response writing: every sequence up to length WL over
+	//     {WriteHeader(103), WriteHeader(102), WriteHeader(404), WriteHeader(201), Write([1]), Write([]), Flush, Header().Set}
+	//     as a handler (interim then final status, final twice, WriteHeader after Write, none at all, empty Write,
+	//     Flush in between, header changes after WriteHeader), behind LogResponse (bundled, direct, with others) and
+	//     without it; what the client gets (interim responses included) must be the same ---
+	WL := 2
+	if thorough {
+		WL = 3
+	}
+	wAlpha := []hop{{Kind: "status", K: 103}, {Kind: "status", K: 102}, {Kind: "status", K: 404}, {Kind: "status", K: 201},
+		{Kind: "write", Bs: []int{1}}, {Kind: "write", Bs: []int{}}, {Kind: "flush"}, {Kind: "set", K: 1, V: 0}}
+	var wProgs [][]hop
+	var recW func(cur []hop)
+	recW = func(cur []hop) {
+		if len(cur) > 0 {
+			wProgs = append(wProgs, append([]hop{}, cur...))
+		}
+		if len(cur) == WL {
+			return
+		}
+		for _, a := range wAlpha {
+			if a.Kind == "set" {
+				a.V = 10 + len(cur) // different values at different positions
+			}
+			recW(append(cur, a))
+		}
+	}
+	recW(nil)
+	if !thorough { // a seeded sample of the length-3 programs on top of all shorter ones
+		for k := 0; k < 32; k++ {
+			pr := []hop{}
+			for j := 0; j < 3; j++ {
+				a := wAlpha[g.rng.Intn(len(wAlpha))]
+				if a.Kind == "set" {
+					a.V = 10 + j
+				}
+				pr = append(pr, a)
+			}
+			wProgs = append(wProgs, pr)
+		}
+	}
+	wMws := []struct {
+		mw     []mwc
+		direct bool
+	}{{[]mwc{{Kind: "logresp"}}, false}, {[]mwc{{Kind: "logresp"}}, true}, {[]mwc{{Kind: "logreq"}, {Kind: "logresp"}, {Kind: "rec", I: 1}, {Kind: "logresp"}}, false}, {[]mwc{{Kind: "rec", I: 1}}, false}}
+	for base := 0; base < len(wProgs); base += 8 { // few routes per server: every case carries its whole configuration
+		end := base + 8
+		if end > len(wProgs) {
+			end = len(wProgs)
+		}
+		for wi, wm := range wMws {
+			l := &listenerCfg{HasMw: true, Mw: wm.mw, Direct: wm.direct}
+			sc := &scenario{Group: "respwrite", HTTP: l, HTTPS: l, H2: (wi+base/8)%2 == 0, TLSInCfg: wi%2 == 0}
+			for k := base; k < end; k++ {
+				l.Calls = append(l.Calls, route{M: 0, P: 8 + (k - base), Ops: wProgs[k]})
+				sc.Reqs = append(sc.Reqs, request{Listener: (k + wi) % 2, M: 0, P: 8 + (k - base), H: []int{}, B: []int{}})
+			}
+			must(g.run(sc))
 		}
 	}
 
@@ -1646,6 +1764,7 @@ func main() {
 		1<<len(univ), nDup, len(lists), L, len(progs), nRand, len(descs))
 	g.w.Extra["scope"] = g.w.Extra["scope"].(string) + fmt.Sprintf("; second routing universe: all %d subsets of 5 pairs (GET/PUT /a/b, GET /a/b/c, DELETE /p0/q, OPTIONS /p0) x 20 requests; configuration call sequences: all %d sequences up to length %d over {3 AddRoute symbols, GetRoutes} with a GetRoutes and an AddRoute (adds via builder and via the config object, middleware set after reads), half of the random configurations as call sequences with getters and replaced middleware; request bodies with and without Content-Length (chunked / unsized h2)", 1<<len(univ2), len(seqs), SL)
 	g.w.Extra["scope"] = g.w.Extra["scope"].(string) + fmt.Sprintf("; overlapping requests: %d rounds x 5 middleware lists x 2 handler programs x 2 listeners, %d requests at once meeting at a barrier inside their handlers before reading", overlapRounds, overlapN)
+	g.w.Extra["scope"] = g.w.Extra["scope"].(string) + fmt.Sprintf("; response writing: %d handler programs (all sequences up to length %d over 103/102/404/201 WriteHeader, Write, empty Write, Flush, Header().Set) x 4 middleware settings", len(wProgs), WL)
 	g.w.Extra["read_accessor_calls_during_configuration"] = g.gettersCalled
 	g.w.Extra["servers_started"] = g.servers
 	g.w.Extra["requests_sent"] = g.requests
